@@ -80,6 +80,7 @@ type verifFakeProxy struct {
 	seq       int64
 	lists     [][]string // scripted pending-list replies
 	listKinds []int      // outcome kind per list call (default OK)
+	listDelay []int      // milliseconds the proxy takes to answer list call i (default 0)
 	listCalls int
 	listTimes []time.Time
 	afterList func()        // called when the script is exhausted
@@ -126,7 +127,14 @@ func (p *verifFakeProxy) RoundTrip(r *http.Request) (*http.Response, error) {
 		}
 		after := p.afterList
 		block := p.blockList
+		delay := 0
+		if i < len(p.listDelay) {
+			delay = p.listDelay[i]
+		}
 		p.mu.Unlock()
+		if delay > 0 {
+			time.Sleep(time.Duration(delay) * time.Millisecond)
+		}
 		if exhausted {
 			if after != nil && i == len(p.lists) {
 				after()
